@@ -3,7 +3,10 @@ Driver for the margins family (`mg`): runs `Model/Margins.lean` over `â„š` / `â„
 Trusted glue (parsing / printing only).
 
   mg smc <num> <den> <epsw> <roots180> <roots1> <rootsStab>
-  mg smd <num> <den> <epsTable> <tol2> <roots180> <roots1> <zstab>
+  mg smd <num> <den> <epsTable> <tol2> <roots180> <roots1> <zstab> <witnesses>
+     (witnesses: candidate points for the minimality check of the discrete stability margin; only
+      those exactly on the unit circle count; output `M` = the best witness with its response,
+      `R` = per reported minimiser `1` when it is refuted by the best witness)
   mg bw  <num> <den> <p0> <dbdrop> <thr> <grid> <rootpoint (0 or 1 entries)>
 
 lists: `n vâ€¦`; complex lists: `n re im â€¦`.
@@ -86,6 +89,7 @@ def handleSmd : P String := do
   let r180 â† pList pCx
   let r1 â† pList pCx
   let zs â† pList pCx
+  let ws â† pList pCx
   if num.isEmpty || den.isEmpty then throw "empty"
   match zProper num den with
   | .error e => pure (showErr e)
@@ -108,6 +112,12 @@ def handleSmd : P String := do
         ++ " A " ++ showListWith (fun c => showCx c.1 ++ " " ++ showCx c.2) A
         ++ " B " ++ showListWith (fun c => showCx c.1 ++ " " ++ showOpt c.2) B
         ++ " S " ++ showListWith (fun c => showCx c.1 ++ " " ++ showOpt c.2) S
+        ++ " M " ++ (match bestWitness num den ws with
+            | some w => "1 " ++ showCx w.1 ++ " " ++ showCx w.2
+            | none => "0")
+        ++ " R " ++ showListWith (fun c : QI Ã— Option QI => match c.2 with
+            | some r => if smRefuted num den ws r then "1" else "0"
+            | none => "0") S
         ++ " " ++ showDefaults A B S
     | _, _ => throw "epsTable"
 
